@@ -37,10 +37,28 @@ func (fv *FnVerifier) permuteSlice(st *State, s string, elemT types.Type, pos to
 		return "(and " + m.cmp("<=", m.idx(0), x, true) + " " + m.cmp("<", x, "(slen "+sN+")", true) + ")"
 	}
 	at := func(r, x string) string { return "(select " + r + " " + idxAdd(m, "(soff "+sN+")", x) + ")" }
-	fv.q.assume(fmt.Sprintf("(forall ((%s %s)) (! (=> %s (and %s (= (%s (%s %s)) %s) (= %s %s))) :pattern ((%s %s)) :pattern (%s)))",
-		i, isort, in(i), in("("+pi+" "+i+")"), piInv, pi, i, i, at(row, i), at(oldRow, "("+pi+" "+i+")"), pi, i, at(row, i)))
+	fv.q.assume(fmt.Sprintf("(forall ((%s %s)) (! (=> %s (and %s (= (%s (%s %s)) %s) (= %s %s))) :pattern ((%s %s))))",
+		i, isort, in(i), in("("+pi+" "+i+")"), piInv, pi, i, i, at(row, i), at(oldRow, "("+pi+" "+i+")"), pi, i))
 	fv.q.assume(fmt.Sprintf("(forall ((%s %s)) (! (=> %s (and %s (= (%s (%s %s)) %s))) :pattern ((%s %s))))",
 		i, isort, in(i), in("("+piInv+" "+i+")"), pi, piInv, i, i, piInv, i))
+	// the same facts stated on ABSOLUTE indexes, so that reads through re-sliced views (s[k:], s[:k]) trigger them
+	{
+		a := fv.q.fresh("a")
+		var inWin, rel string
+		if m.BV {
+			inWin = fmt.Sprintf("(and (bvule (soff %s) %s) (bvult %s (bvadd (soff %s) (slen %s))))", sN, a, a, sN, sN)
+			rel = "(bvsub " + a + " (soff " + sN + "))"
+		} else {
+			inWin = fmt.Sprintf("(and (<= (soff %s) %s) (< %s (+ (soff %s) (slen %s))))", sN, a, a, sN, sN)
+			rel = "(- " + a + " (soff " + sN + "))"
+		}
+		pr := "(" + pi + " " + rel + ")"
+		pir := "(" + piInv + " " + rel + ")"
+		fv.q.assume(fmt.Sprintf("(forall ((%s %s)) (! (=> %s (and %s (= (%s %s) %s) (= (select %s %s) %s))) :pattern ((select %s %s))))",
+			a, isort, inWin, in(pr), piInv, pr, rel, row, a, at(oldRow, pr), row, a))
+		fv.q.assume(fmt.Sprintf("(forall ((%s %s)) (! (=> %s (and %s (= (%s %s) %s) (= %s (select %s %s)))) :pattern ((select %s %s))))",
+			a, isort, inWin, in(pir), pi, pir, rel, at(row, pir), oldRow, a, oldRow, a))
+	}
 	// outside the window nothing changes
 	j := fv.q.fresh("j")
 	var outside string
